@@ -71,6 +71,11 @@ def timeout(on, steps):
 def catalogue():
     C = {}
     C["seq2"] = (wf("m", [step("s1", [irq("a1"), irq("a2")]), step("s2", [irq("a3")])]), {})
+    # explicit `next` on the last step of a sequence (loop back to an earlier step): used for the tree check only (running it never ends)
+    C["step_next"] = (wf("m", [step("s1", [irq("a1")]), step("s2", [irq("a2"), irq("a2b")], next="s1")]), {})
+    # a long timeout rule on an open act and a timer tick before the client answers (reload must keep the start time)
+    C["tmo_reload"] = (wf("m", [step("s1", [irq("a1", timeout=[timeout("1h", [step("ts0", [irq("ta0")])])], _pre_actions=[["Tick", {}]])]), step("s2", [irq("a2", _pre_actions=[["Tick", {}]])],
+                                                                                                                                                 timeout=[timeout("2h", [step("ts1", [irq("ta1")])])])]), {})
     C["two_steps"] = (wf("m", [step("s1", [irq("a1")]), step("s2", [irq("a2")])]), {})
     C["one_irq"] = (wf("m", [step("s1", [irq("a1")])]), {})
     C["if_else_first"] = (wf("m", [step("s1", branches=[
